@@ -82,6 +82,7 @@ var acValues = map[string][]string{
 	"ok:QueryFloat64": {"1.5", "-0", "1e3", "NaN", "Inf", "0x1p-2", ".5"}, "malformed:QueryFloat64": {"1,5", "abc", "1e", "\x00"},
 	"range:QueryFloat64": {"1e999", "-1e999"},
 	"ok:str": {"a", "hello world", "%41", "a+b", "\x00\xff", " padded ", "é", "a&b=c", "100%", ";", "\"q\""},
+	"ok:QueryTrim": {" ", "\t\n", "   ", " x ", "\u00a0", "a", " padded "},
 	"malformed:QueryUnescape": {"%zz", "%", "%4", "100%"}, "ok:QueryUnescape": {"a%20b", "%41", "a+b", "plain", "%E9"},
 }
 
@@ -310,7 +311,7 @@ func acGen(seed int64, n int, args []string, out *json.Encoder) {
 		case 2:
 			return fmt.Sprint(rng.NormFloat64() * 1e10)
 		case 3:
-			pool := []string{"", " ", "%", "%41", "%zz", "a b", "+", "=", "&", ";", ",", "\"", "\\", "\x00", "\x7f", "é", "true", "False", "1", "\t1"}
+			pool := []string{"", " ", " ", "\t", "%", "%41", "%zz", "a b", "+", "=", "&", ";", ",", "\"", "\\", "\x00", "\x7f", "é", "true", "False", "1", "\t1"}
 			return pool[rng.Intn(len(pool))] + pool[rng.Intn(len(pool))]
 		default:
 			return acPick(rng, "Query", "ok")
